@@ -303,11 +303,8 @@ Proof.
     apply cinv_start_converter, cinv_start_tagging, cinv_set_tags, H.
   - (* ASetConv *) simpl. destruct (tget n (tags st)); [|exact H].
     match goal with |- context[if ?b then _ else _] => destruct b end; [|exact H].
-    match goal with |- context[attach_all ?s ?n ?cs] =>
-      assert (Cinv (fst (attach_all s n cs))) as HA; [|destruct (attach_all s n cs) as [s2 ok]; simpl in HA] end.
-    { apply cinv_attach_all. apply cinv_fold; [|exact H].
-      intros s c Hs. destruct (memN c cs); [exact Hs|apply cinv_detach; exact Hs]. }
-    destruct ok; [apply cinv_start_converter; exact HA|exact HA].
+    apply cinv_start_converter, cinv_attach_all. apply cinv_fold; [|exact H].
+    intros s c Hs. destruct (memN c cs); [exact Hs|apply cinv_detach; exact Hs].
   - (* ABodyImport *) simpl. destruct (jimp st) as [j|] eqn:J; [|exact H].
     destruct (ij_resp j); [exact H|].
     destruct H as (A & B & C). split; [exact A|split; [exact B|]].
